@@ -19,6 +19,7 @@
 #ifndef COMPLEX_H_
 #define COMPLEX_H_
 
+#include <atomic>
 #include "intrinsic_type.h"
 
 #include <string>
@@ -34,7 +35,8 @@ class Complex
 {
   Type _type;
   void * _instance = nullptr;
-  int * _refcount = nullptr;
+  /* shared by the copies held in cloned contexts, which run on their own threads */
+  std::atomic<int> * _refcount = nullptr;
 
   Complex(Type::TypeMinor type_id, void * handle);
 
